@@ -1,6 +1,8 @@
 import LogosModel.CertCheck
 import LogosModel.Callback
 import LogosModel.Hir
+import LogosModel.Interp
+import LogosModel.Utf8Closed
 import Std.Data.HashSet
 /-!
 # Line-protocol driver (untrusted glue: parsing, closure search, printing)
@@ -140,6 +142,33 @@ def certVerdict (c : Case) (fuel : Nat) : String :=
     else if !wfB G then "FAIL wf"
     else s!"FAIL {(firstBad G prios C).getD "?"}"
 
+instance : Hashable U where
+  hash u := match u with
+    | .s0 => 0 | .c1 => 1 | .c2 => 2 | .c3 => 3 | .e0 => 4 | .ed => 5 | .f0 => 6 | .f4 => 7 | .dead => 8
+
+/-- untrusted search for the closure of `(s0, norm r)` under viable byte steps -/
+partial def uclosure (work : List (U × Re)) (seen : Std.HashSet (U × Re)) (fuel : Nat) :
+    Option (Std.HashSet (U × Re)) :=
+  match fuel, work with
+  | 0, _ => none
+  | _, [] => some seen
+  | fuel+1, (q, x) :: rest =>
+    if seen.contains (q, x) then uclosure rest seen fuel else
+    let seen := seen.insert (q, x)
+    let succs := (List.range 256).filterMap fun b =>
+      let x' := derivN b x
+      if viable x' then some (ustep q b, x') else none
+    uclosure (succs.eraseDups ++ rest) seen fuel
+
+/-- "1" = proved UTF-8 closed, "0" = check failed (with the search complete), "U" = search gave up,
+"L" = contains look-around -/
+def utf8Verdict (h : Hir) : String :=
+  if h.hasLook then "L" else
+  let r := h.lower
+  match uclosure [(.s0, norm r)] {} 20000 with
+  | none => "U"
+  | some S => if utf8ClosedB S.toList r then "1" else "0"
+
 /-! ## stream printing -/
 
 def itemStr (c : Case) : Item → String
@@ -163,6 +192,21 @@ def specStr (c : Case) (inp : List Nat) : String :=
   if c.hasLook then "LOOK" else
   streamStr c (specLex c.prios.toList c.res c.cb c.utf8 inp)
 
+def evStr : Ev → String
+  | .next p => s!"N{p}"
+  | .read o n h => s!"R{o}/{n}" ++ (if h then "+" else "-")
+  | .trivia p => s!"T{p}"
+  | .end p => s!"E{p}"
+  | .endToBoundary a r => s!"B{a}>{r}"
+
+def traceStr (c : Case) (isPrefix : Bool) (inp : List Nat) : String :=
+  let r := interpLex c.graph isPrefix c.cb c.utf8 inp
+  streamStr c r.1 ++ " | " ++ " ".intercalate (r.2.map evStr)
+
+def specPStr (c : Case) (inp : List Nat) : String :=
+  if c.hasLook then "LOOK" else
+  streamStr c (specLexP c.prios.toList c.res c.cb c.utf8 inp)
+
 def answer (c : Case) (q : List String) : String :=
   match q with
   | ["CERT"] => certVerdict c 200000
@@ -171,6 +215,9 @@ def answer (c : Case) (q : List String) : String :=
   | ["LEX", "n", hex] => lexStr c false (unhex hex)
   | ["LEX", "p", hex] => lexStr c true (unhex hex)
   | ["SPEC", hex] => specStr c (unhex hex)
+  | ["PSPEC", hex] => specPStr c (unhex hex)
+  | ["LEX", "t", hex] => traceStr c false (unhex hex)
+  | ["UTF8CLOSED"] => " ".intercalate (c.hirs.toList.map utf8Verdict)
   | ["PRIO"] => " ".intercalate (c.hirs.toList.map fun h => toString h.complexity)
   | ["NULLABLE"] => " ".intercalate (c.hirs.toList.map fun h => if h.hasLook then "L" else if nullable h.lower then "1" else "0")
   | _ => "BADQ"
